@@ -15,6 +15,8 @@ from . import forward
 
 from .c13 import lockdown
 
+from .c10 import _staging_tables
+
 META = {
     'explanation': (
         "Equivalence of `segment` on/off on single-layout text is not decided "
@@ -45,6 +47,8 @@ def check(ctx):
     ctx.attempt(word_tables)
     ctx.attempt(forward.check_all, module_suffixes=('plssdesc.plss_parse', 'plssdesc.plssdesc'))
     ctx.attempt(lockdown, ctx.repo.func('PLSSDesc.parse'), only=('sec_colon_required', 'sec_colon_cautious', 'segment', 'sec_within', 'layout'))
+    ctx.attempt(_staging_tables)
+    ctx.attempt(common.config_words, plss=('sec_colon_required', 'sec_colon_cautious', 'segment', 'sec_within'))
 
 
 def _colon(ctx):
@@ -122,8 +126,14 @@ def _colon(ctx):
         if isinstance(n, ast.Assign) and norm(n.targets[0]) == 'require_colon':
             vals.add(norm(n.value))
     # positive evidence: require_colon seeded from the attribute instead of the locked-down argument
-    ctx.tri(vals == {'sec_colon_required', 'SecFinder.SEC_COLON_CAUTIOUS'},
-            any(v.startswith('self.') for v in vals), 'LOCK',
+    from_attr = False
+    for n in walk_local(p.node):
+        if isinstance(n, ast.Assign) and norm(n.targets[0]) == 'require_colon':
+            pv_ = flow.provenance(p.node, n.value)
+            if {'self.sec_colon_required', 'self.sec_colon_cautious', 'self.require_colon'} & flow.prov_attrs(pv_) \
+                    and not ({'sec_colon_required', 'sec_colon_cautious'} & flow.prov_params(pv_)):
+                from_attr = True
+    ctx.tri(vals == {'sec_colon_required', 'SecFinder.SEC_COLON_CAUTIOUS'}, from_attr, 'LOCK',
             'PLSSDesc.parse yields required-bool or the CAUTIOUS marker (from the locked-down arguments)',
             detail_bad=f"require_colon is assigned {sorted(vals)}: the attribute, not the argument, decides",
             key="LOCK|PLSSDesc.parse|require_colon-values")
@@ -201,6 +211,20 @@ def _sec_within(ctx):
         tags = [norm(c.args[0].elts[0]) for c in walk_local(f2.node) if isinstance(c, ast.Call)
                 and norm(c.func) == 'self.unused_blocks.append' and c.args and isinstance(c.args[0], ast.Tuple)
                 and isinstance(c.args[0].elts[0], ast.Constant)]
+        idx_vars = set()
+        for lp in walk_local(f2.node):
+            if isinstance(lp, ast.For) and isinstance(lp.iter, ast.Call) and dotted(lp.iter.func) == 'enumerate' \
+                    and isinstance(lp.target, ast.Tuple) and isinstance(lp.target.elts[0], ast.Name):
+                idx_vars.add(lp.target.elts[0].id)
+        by_index = [c for c in walk_local(f2.node) if isinstance(c, ast.Call)
+                    and norm(c.func) == 'self.unused_blocks.append' and c.args and isinstance(c.args[0], ast.Tuple)
+                    and isinstance(c.args[0].elts[0], ast.Name) and c.args[0].elts[0].id in idx_vars]
+        if by_index:
+            ctx.violation('TBL', f"{spec.split('.')[-1]} tags its unused text {tag}",
+                          f"`{norm(by_index[0])[:60]}` tags the leftover text with the loop index: for the first (or only) "
+                          f"Twp/Rge that is 0, which sec_within reads as 'before the description'",
+                          key=f"TBL|{spec}|tag", where=common.loc(f2, by_index[0]))
+            continue
         ctx.tri(tags == [tag], bool(tags) and any(t_ != tag for t_ in tags), 'TBL',
                 f"{spec.split('.')[-1]} tags its unused text {tag}",
                 detail_bad=f"leftover text is tagged {tags}: sec_within attaches it on the wrong side",
